@@ -1,6 +1,8 @@
 (* C19 — alternative entry points for the same structure agree. *)
 From Model Require Import Bytes Prim Tables Cert KAC Sig.
-From Proofs Require Import BytesLemmas PrimProofs Frame LeafProofs TypedRT.
+From Spec Require Import Wire.
+From Proofs Require Import BytesLemmas PrimProofs Frame LeafProofs TypedRT CtorRT.
+Open Scope Z_scope.
 Open Scope Z_scope.
 
 Theorem C19_integer_constructors : forall v n, new_integer_from_int v n = encode_int_n v n.
@@ -52,3 +54,13 @@ Theorem C19_x25519_ed25519_reader_vs_generic : forall x k r, wf x ->
    (read_keys_and_cert x = Ok (k, r) /\ kc_crypto_size_of (k_kc k) = 32 /\ kc_signing_pubkey_size (k_kc k) = 32)).
 Proof. exact x25519_ed25519_reader_agrees. Qed.
 Print Assumptions C19_x25519_ed25519_reader_vs_generic.
+
+(* NewKeyCertificateWithTypes builds exactly the value NewKeyCertificate parses from the
+   specification's 7-byte encoding of the same two type codes *)
+Theorem C19_key_certificate_with_types_vs_bytes : forall s c kc, new_key_certificate_with_types s c = Ok kc ->
+  0 <= s < 65536 -> 0 <= c < 65536 ->
+  kc_signing_type kc = s /\ kc_crypto_type kc = c /\
+  keycert_bytes kc = Ok (spec_keycert (Z.to_N s) (Z.to_N c) []) /\
+  exists k', new_key_certificate (spec_keycert (Z.to_N s) (Z.to_N c) []) = Ok (k', []) /\
+             keycert_bytes k' = keycert_bytes kc /\ kc_signing_type k' = s /\ kc_crypto_type k' = c.
+Proof. exact keycert_with_types_agrees. Qed.
